@@ -878,6 +878,55 @@ func (se *SpecEnv) call(e SCall, hint types.Type) Val {
 		k := se.eval(e.Args[1], mt.Key())
 		h, _ := f.mapGet(se.state(), mt, m.L[0], k.L[0])
 		return boolVal(and(not(eq(m.L[0], "0")), h))
+	case "ghostint": // ghostint("name", x): ghost integer attached to the object x refers to
+		lit, ok := e.Args[0].(SLit)
+		if !ok || lit.Kind != "string" {
+			sfail("ghostint needs a name literal")
+		}
+		x := se.eval(e.Args[1], nil)
+		ref := x.L[0]
+		if _, isIface := x.T.Underlying().(*types.Interface); isIface {
+			ref = x.L[1]
+		}
+		return Val{T: types.Typ[types.Int], L: []string{sel(f.lazyHeap(se.state(), "map:ghost:"+lit.Val), ref)}}
+	case "call": // call("<function key>", args...): a function with a pure contract (methods included)
+		lit, ok := e.Args[0].(SLit)
+		if !ok || lit.Kind != "string" {
+			sfail("call needs the function key as a string literal")
+		}
+		con := f.eng.contracts[lit.Val]
+		fn := f.eng.fnByKey[lit.Val]
+		if con == nil || !con.Pure || fn == nil {
+			sfail("no pure contract for %s", lit.Val)
+		}
+		var args []Val
+		for i, a := range e.Args[1:] {
+			var pt types.Type
+			if i < len(fn.Params) {
+				pt = fn.Params[i].Type()
+			}
+			args = append(args, se.eval(a, pt))
+		}
+		var rt types.Type = fn.Signature.Results()
+		if fn.Signature.Results().Len() == 1 {
+			rt = fn.Signature.Results().At(0).Type()
+		}
+		f.c.trusted["assumed contract "+lit.Val] = true
+		return f.pureResult(se.state(), lit.Val, args, rt, con.Reads)
+	case "callresult": // callresult("Name", k): the value returned by the k-th call of Name in this function
+		lit, ok := e.Args[0].(SLit)
+		if !ok || lit.Kind != "string" {
+			sfail("callresult needs the callee's short name as a string literal")
+		}
+		kl, ok := e.Args[1].(SLit)
+		if !ok || kl.Kind != "int" {
+			sfail("callresult needs a literal ordinal")
+		}
+		v, ok := f.callResults[lit.Val+"#"+kl.Val]
+		if !ok {
+			sfail("no call %s#%s recorded (yet) in this function", lit.Val, kl.Val)
+		}
+		return v
 	case "first", "second", "third": // projections of a tuple value
 		x := se.eval(e.Args[0], nil)
 		tup, ok := x.T.(*types.Tuple)
